@@ -25,7 +25,7 @@
 EXTENDS Integers, Sequences, FiniteSets, TLC, Json, IOUtils
 
 (* the contract operators of XoSort; its model constants and variables are not used *)
-S == INSTANCE XoSort WITH N <- 0, MaxDeps <- 0, DepMode <- "lists", SelfDeps <- FALSE, MaxRoots <- 0, DupRoots <- FALSE, ApiAll <- FALSE,
+S == INSTANCE XoSort WITH N <- 0, MaxDeps <- 0, DepMode <- "lists", SelfDeps <- FALSE, MaxRoots <- 0, DupRoots <- FALSE, ApiAll <- FALSE, Shape <- "any",
                           SplitModes <- {}, Fixed <- TRUE, NParts <- 1, Part <- 0, case <- 0, st <- 0
 
 Cases == JsonDeserialize(IOEnv.TRACE_FILE)
